@@ -51,26 +51,41 @@ def main():
             shutil.copy(os.path.join(wt, f), os.path.join(d, f))
     results = {}
     if confirmed:
-        for p in props:
-            env = dict(os.environ)
-            scratch = tempfile.mkdtemp(prefix='seed-evid-')
-            env['VERIF_EVIDENCE_DIR'] = scratch
-            t = time.time()
-            if in_repo:
-                sh('git -C /repo apply %s/patch.diff' % d)
-                try:
+        # evaluate against the CURRENT /repo HEAD + the seeded patch (the seed's own worktree may be based on an
+        # older HEAD that still contains defects repaired since)
+        fresh = tempfile.mkdtemp(prefix='seed-wt-')
+        os.rmdir(fresh)
+        sh('git -C /repo worktree add -q %s HEAD' % fresh)
+        rca, oa = sh('git apply %s/patch.diff' % d, cwd=fresh)
+        out['applies_to_head'] = (rca == 0)
+        if rca != 0:
+            out['apply_error'] = oa[-300:]
+        try:
+            for p in props:
+                if rca != 0:
+                    break
+                env = dict(os.environ)
+                scratch = tempfile.mkdtemp(prefix='seed-evid-')
+                env['VERIF_EVIDENCE_DIR'] = scratch
+                t = time.time()
+                if in_repo:
+                    sh('git -C /repo apply %s/patch.diff' % d)
+                    try:
+                        rc, o = sh('./check %s %s' % (p, tier), cwd=VERIF, env=env)
+                    finally:
+                        sh('git -C /repo checkout -- .')
+                else:
+                    env['VERIF_REPO'] = fresh
                     rc, o = sh('./check %s %s' % (p, tier), cwd=VERIF, env=env)
-                finally:
-                    sh('git -C /repo checkout -- .')
-            else:
-                env['VERIF_REPO'] = wt
-                rc, o = sh('./check %s %s' % (p, tier), cwd=VERIF, env=env)
-            viol = [l for l in o.splitlines() if l.startswith('VIOLATION')]
-            units = [l.strip()[:260] for l in o.splitlines() if l.startswith('  unit ')]
-            results[p] = {'exit': rc, 'violations': len(viol), 'first_units': units[:4], 'wall_s': round(time.time() - t),
-                          'mode': 'in-repo' if in_repo else 'VERIF_REPO', 'tier': tier,
-                          'tail': [l[:200] for l in o.splitlines() if l.startswith(('INCONCL', 'NON-REPRO', 'HARNESS'))][:4]}
-            shutil.rmtree(scratch, ignore_errors=True)
+                viol = [l for l in o.splitlines() if l.startswith('VIOLATION')]
+                units = [l.strip()[:260] for l in o.splitlines() if l.startswith('  unit ')]
+                results[p] = {'exit': rc, 'violations': len(viol), 'first_units': units[:4],
+                              'wall_s': round(time.time() - t), 'mode': 'in-repo' if in_repo else 'VERIF_REPO',
+                              'tier': tier, 'tail': [l[:200] for l in o.splitlines()
+                                                     if l.startswith(('INCONCL', 'NON-REPRO', 'HARNESS'))][:4]}
+                shutil.rmtree(scratch, ignore_errors=True)
+        finally:
+            sh('git -C /repo worktree remove --force %s' % fresh)
     out['checks'] = results
     meta = {}
     mp = os.path.join(d, 'meta.json')
